@@ -437,6 +437,31 @@ def r_par(ctx, gen):
     ctx.floor(rule, 'closures run on the rayon pool', n, 1)
 
 
+def r_n7(ctx, gen):
+    """one generator per build: every id handed out during a build comes from the same instance (two instances seeded from
+    two scans hand out overlapping ids, whatever each of them guarantees on its own)"""
+    F = ctx.F
+    name = gen[0]
+    rule = 'N7'
+    from props import C06
+    be = C06.build_entry(F)
+    if not ctx.need(be is not None, rule, 'build entry'):
+        return
+    ctors = [g.path for g in F.lib_fns() if g.path.startswith(name + '::') and any(t[0] == 'agg' and t[1] == name for b, k, t in paths.ret_assigns(g))]
+    sites = []
+    for g in F.reach([be]).values():
+        if g.in_test:
+            continue
+        for c in g.calls():
+            if c.callee in ctors:
+                sites.append((g, c))
+    in_loop = [(g, c) for g, c in sites if g.in_cycle(c.bb)]
+    ctx.check(len(sites) == 1 and not in_loop, rule, 'one-generator-per-build', sites[0][1].loc() if sites else be.loc(),
+              'the build creates exactly one id generator',
+              'the build creates %d id generators (%s)%s: ids handed out by one are unknown to the other, so the same tree-node id can be given to two nodes of one build' % (
+                  len(sites), sorted({g.path for g, c in sites}), ', one of them in a loop' if in_loop else ''))
+
+
 def run(ctx):
     ctx.explanation = EXPL
     ctx.trusted = ['rustc nightly MIR construction', 'std atomics: every RMW is atomic under any ordering', 'rayon', 'roaring select/sub semantics']
@@ -450,6 +475,7 @@ def run(ctx):
     r_n3(ctx, gen)
     r_n4(ctx, gen)
     r_n5(ctx, gen)
+    r_n7(ctx, gen)
     sync_audit(ctx)
     r_par(ctx, gen)
     # the statement refers to C01 ("a forest satisfying C01"): C01's structural clauses are re-checked by this check too
